@@ -69,7 +69,7 @@ func c02() []*Ob {
 					c.Violation("enum:buildEvalTree:types", fn.Pos(), "buildEvalTree does not handle AST value type(s) %v: a valid query fails with 'unknown token type'", missing)
 				}
 				ops := c.P.EnumConsts("parser", "logicalKind")
-				cov := SwitchCoverage(fn, func(v ssa.Value) bool { return strings.HasSuffix(v.Type().String(), "parser.logicalKind") })
+				cov := c.P.SwitchCoverageLifted(fn, func(v ssa.Value) bool { return strings.HasSuffix(v.Type().String(), "parser.logicalKind") })
 				var mo []string
 				for n, k := range ops {
 					if !cov[k] {
@@ -253,6 +253,113 @@ func c02() []*Ob {
 		{Prop: "C02", ID: "C02.6", Engine: "PROV+SHAPE", Floor: 3,
 			Desc:  "wildcard matching used by every search leaf: middle fragments are searched strictly between prefix and suffix and the KMP fallback is iterated (shared with C13.5; a break returns documents that do not match, or under NOT hides documents that do)",
 			Check: func(c *Ctx) { matcherShape(c) }},
+		{Prop: "C02", ID: "C02.7", Engine: "PAIR(comparator)", Floor: 1,
+			Desc: "ties on MID are broken by RID wherever posting lists of an active fraction are ordered: a function of the merge (mergeSorted, SeqIDCmp.compare and what they call) that compares elements of the mids column also compares elements of the rids column (two documents of one millisecond are ordered by RID; an order decided by MID alone leaves the list unsorted and AND/OR/NOT nodes then drop or repeat documents)",
+			Check: func(c *Ctx) {
+				root := c.Fn("frac.mergeSorted")
+				if root == nil {
+					return
+				}
+				funcs := c.P.Scope([]*ssa.Function{root}, func(rel string) bool { return rel == "frac" })
+				isCol := func(v ssa.Value, names ...string) bool {
+					return DerivesFromNoCall(v, func(x ssa.Value) bool {
+						if p, ok := x.(*ssa.Parameter); ok {
+							for _, n := range names {
+								if p.Name() == n {
+									return true
+								}
+							}
+						}
+						if fa, ok := x.(*ssa.FieldAddr); ok {
+							if _, f, _, okf := FieldOf(fa); okf {
+								for _, n := range names {
+									if f == n {
+										return true
+									}
+								}
+							}
+						}
+						return false
+					})
+				}
+				n := 0
+				for _, fn := range funcs {
+					cmpMid, cmpRid := 0, 0
+					var first ssa.Instruction
+					for _, b := range fn.Blocks {
+						for _, in := range b.Instrs {
+							bo, ok := in.(*ssa.BinOp)
+							if !ok {
+								continue
+							}
+							switch bo.Op {
+							case token.LSS, token.GTR, token.LEQ, token.GEQ, token.EQL, token.NEQ:
+							default:
+								continue
+							}
+							elem := func(v ssa.Value, names ...string) bool {
+								u, ok := v.(*ssa.UnOp)
+								if !ok || u.Op != token.MUL {
+									return false
+								}
+								ia, ok := u.X.(*ssa.IndexAddr)
+								return ok && isCol(ia.X, names...)
+							}
+							if elem(bo.X, "mids", "mid") || elem(bo.Y, "mids", "mid") {
+								cmpMid++
+								if first == nil {
+									first = in
+								}
+							}
+							if elem(bo.X, "rids", "rid") || elem(bo.Y, "rids", "rid") {
+								cmpRid++
+							}
+						}
+					}
+					if cmpMid == 0 {
+						continue
+					}
+					n++
+					if cmpRid > 0 {
+						c.Site(first.Pos(), "%s orders by (MID, RID)", FuncName(fn))
+					} else {
+						c.Violation("pair:mid-without-rid:"+FuncName(fn), first.Pos(), "%s decides an order from the MID column alone: two documents of the same millisecond are then merged in arrival order instead of RID order, the posting list is no longer sorted and search nodes drop or repeat documents", FuncName(fn))
+					}
+				}
+				if n == 0 {
+					c.Undecided("pair:mid-rid:none", root.Pos(), "no function of the posting-list merge compares MIDs any more")
+				}
+			}},
+		{Prop: "C02", ID: "C02.8", Engine: "IDIOM", Floor: 1,
+			Desc: "the time window can be empty at every position: in getLIDsBorders the right-border search does not start behind the left border (the element at the left border has only been compared with the upper bound; starting at left+k returns the newest older document for a window that lies in a gap of the data)",
+			Check: func(c *Ctx) {
+				fn := c.Fn("frac/processor.getLIDsBorders")
+				if fn == nil {
+					return
+				}
+				bs := CallsIn(fn, Callee("util.BinSearchInRange", "sort.Search"))
+				if len(bs) < 2 {
+					c.Undecided("idiom:getLIDsBorders:searches", fn.Pos(), "getLIDsBorders no longer runs two binary searches")
+					return
+				}
+				for _, second := range bs {
+					lo := Arg(second, 0)
+					bo, ok := lo.(*ssa.BinOp)
+					if !ok || bo.Op != token.ADD {
+						continue
+					}
+					for _, first := range bs {
+						if first == second {
+							continue
+						}
+						k, isK := ConstInt(bo.Y)
+						if isK && k > 0 && DerivesFromNoCall(bo.X, func(v ssa.Value) bool { return v == first.Value() }) {
+							c.Violation("idiom:getLIDsBorders:skips-left-border", second.Pos(), "the right border is searched from (left border + %d): the element at the left border is never compared with the lower bound, so a window that contains no document returns the newest older one", k)
+						}
+					}
+				}
+				c.Site(fn.Pos(), "the right-border search includes the left border")
+			}},
 		{Prop: "C02", ID: "C02.5", Engine: "DOM", Floor: 2,
 			Desc: "no repeated LID in a posting list: in frac.mergeSorted every element taken from the freshly queued list (which repeats a LID when a document carries the token twice) is appended only after the comparison with the previously appended value",
 			Check: func(c *Ctx) {
